@@ -230,7 +230,7 @@ def cases(rng, tier, n=None):
     if n is not None:
         ns = [n // 4] * 4
     else:
-        ns = [500 * k, 500 * k, 150 * k, 350 * k]
+        ns = [400 * k, 400 * k, 100 * k, 300 * k]
     out = []
     out += [_gen_s2p(rng, tier) for _ in range(ns[0])]
     out += [_gen_p2s(rng, tier) for _ in range(ns[1])]
@@ -291,8 +291,35 @@ def _bits_rows(arr):
     return [[f32bits(x) for x in row] for row in arr]
 
 
-def _notes_out(seq):
-    return sorted([int(n.pitch), me(n.start_time), me(n.end_time)] for n in seq.notes)
+FP_MOD = 2 ** 89 - 1
+
+
+def fcode(x):
+    """integer code of the exact bit pattern of a finite double (same as Run/C18.v fcode)"""
+    if x == 0.0:
+        return 2048
+    fr, ex = math.frexp(x)
+    m = int(fr * (1 << 53))
+    e = ex - 53
+    if e < -1074:                      # subnormal: SpecFloat keeps the exponent at -1074
+        m >>= (-1074 - e)
+        e = -1074
+    return m * 4096 + (e + 2048)
+
+
+def fingerprint(tot, notes):
+    h = (1 * 1000003 + fcode(tot)) % FP_MOD
+    for (_, s, e) in notes:
+        h = (h * 1000003 + fcode(s)) % FP_MOD
+        h = (h * 1000003 + fcode(e)) % FP_MOD
+    return h
+
+
+def _notes_out(seq, key):
+    """canonical order = the order in which the loop emits: (end frame, pitch) for the run decoder,
+    (frame, pitch) for the onset decoder; times are compared bit-exactly through a fingerprint."""
+    ns = sorted(([int(n.pitch), n.start_time, n.end_time] for n in seq.notes), key=key)
+    return [fingerprint(seq.total_time, ns), [n[0] for n in ns]]
 
 
 def impl(case):
@@ -321,12 +348,12 @@ def impl(case):
             kw['offset_predictions'] = _mat(a['offsets'], T, P)
         seq = sequences_lib.pianoroll_to_note_sequence(_mat(a['frames'], T, P), F(a['fps']), F(a['min_dur_ms']),
                                                        min_midi_pitch=a['mmp'], **kw)
-        return ['OK', me(seq.total_time), _notes_out(seq)]
+        return ['OK'] + _notes_out(seq, lambda n: (n[2], n[0])) + [_times(seq)]
     if op == 'o2s':
         T, P = a['T'], a['P']
         seq = sequences_lib.pianoroll_onsets_to_note_sequence(_mat(a['onsets'], T, P), F(a['fps']),
                                                               note_duration_seconds=F(a['dur']), min_midi_pitch=a['mmp'])
-        return ['OK', me(seq.total_time), _notes_out(seq)]
+        return ['OK'] + _notes_out(seq, lambda n: (n[1], n[0])) + [_times(seq)]
     if op == 'grid':
         T, P, fps = a['T'], a['P'], F(a['fps'])
         seq = sequences_lib.pianoroll_to_note_sequence(_mat(a['frames'], T, P), fps, 0, min_midi_pitch=a['mn'])
@@ -336,6 +363,17 @@ def impl(case):
             return _exc(e)
         return ['OK', int(roll.shape[0]), [mask(x) for x in roll], _inexact_frames(fps, T)]
     raise ValueError(op)
+
+
+def _times(seq):
+    """exact times for the oracle (not compared with the model, see equal())"""
+    return [H(seq.total_time), sorted([int(n.pitch), H(n.start_time), H(n.end_time)] for n in seq.notes)]
+
+
+def equal(case, a, b):
+    if case['op'] in ('p2s', 'o2s') and a[0] == 'OK' and b[0] == 'OK':
+        return a[:3] == b[:3]
+    return a == b
 
 
 def _inexact_frames(fps, T):
@@ -371,8 +409,8 @@ def model_input(case):
 def _digits(z, w):
     out = []
     for _ in range(w):
-        out.append(z % 65536)
-        z //= 65536
+        out.append(z % 256)
+        z //= 256
     return out
 
 
@@ -392,8 +430,7 @@ def model_output(case, m):
         wrows = [[f32bits(1.0 if k == 0 else up / k) for k in _digits(z, P)] for z in wts]
         return ['OK', rows, act, ons, offs, velrows, wrows, sorted(cc)]
     if op in ('p2s', 'o2s'):
-        tot, notes = m
-        return ['OK', normme(tot), sorted([p, normme(s), normme(e)] for p, s, e in notes)]
+        return ['OK', m[0], m[1]]
     if op == 'grid':
         rows, act, inexact = m
         return ['OK', rows, act, inexact]
@@ -455,27 +492,28 @@ def oracle(case, io):
             for (s, e) in _expected_spans(f, o):
                 st, et = s * fl, e * fl
                 if (et - st) * 1000 >= md:
-                    exp.append([p + a['mmp'], me(st), me(et)])
+                    exp.append([p + a['mmp'], H(st), H(et)])
         exp.sort()
-        got = io[2]
+        tot, got = io[3]
         if got != exp:
             missing = [x for x in exp if x not in got]
             extra = [x for x in got if x not in exp]
             return {'kind': 'decoder-runs-mismatch', 'fps': fps, 'onsets': on is not None, 'offsets': off is not None,
-                    'missing': [[x[0], unme(x[1]), unme(x[2])] for x in missing[:3]],
-                    'extra': [[x[0], unme(x[1]), unme(x[2])] for x in extra[:3]]}
-        if unme(io[1]) != (T + 1) * fl:
-            return {'kind': 'decoder-total-time', 'fps': fps, 'got': unme(io[1])}
+                    'missing': [[x[0], F(x[1]), F(x[2])] for x in missing[:3]],
+                    'extra': [[x[0], F(x[1]), F(x[2])] for x in extra[:3]]}
+        if F(tot) != (T + 1) * fl:
+            return {'kind': 'decoder-total-time', 'fps': fps, 'got': F(tot)}
         return None
     if op == 'o2s':
         T, P, fps = a['T'], a['P'], F(a['fps'])
         fl = 1 / fps
         dur = F(a['dur'])
-        exp = sorted([p + a['mmp'], me(i * fl), me(i * fl + dur)]
+        exp = sorted([p + a['mmp'], H(i * fl), H(i * fl + dur)]
                      for i in range(T) for p in range(P) if (a['onsets'][i] >> p) & 1)
-        if io[2] != exp:
+        tot, got = io[3]
+        if got != exp:
             return {'kind': 'onset-decoder-mismatch', 'fps': fps}
-        if unme(io[1]) != T * fl + dur:
+        if F(tot) != T * fl + dur:
             return {'kind': 'onset-decoder-total-time', 'fps': fps}
         return None
     if op == 'grid':
